@@ -101,7 +101,70 @@ impl Hash for Tracked {
     }
 }
 
+/// A zero-sized element with a destructor: no state, so only the numbers of creations and
+/// drops can be followed (pointer arithmetic over such elements does not move).
+#[derive(PartialEq, Eq, PartialOrd, Ord, Hash)]
+pub struct Zst;
+
+thread_local! {
+    static ZST_COUNTS: std::cell::Cell<(u64, u64, u64)> = const { std::cell::Cell::new((0, 0, 0)) }; // created, dropped, drops without a live element
+}
+
+impl Zst {
+    fn new() -> Zst {
+        ZST_COUNTS.with(|c| {
+            let (a, b, g) = c.get();
+            c.set((a + 1, b, g));
+        });
+        Zst
+    }
+}
+impl Clone for Zst {
+    fn clone(&self) -> Self {
+        Zst::new()
+    }
+}
+impl Drop for Zst {
+    fn drop(&mut self) {
+        let _ = ZST_COUNTS.try_with(|c| {
+            let (a, b, g) = c.get();
+            c.set((a, b + 1, g + (b + 1 > a) as u64));
+        });
+    }
+}
+impl Elem for Zst {
+    fn make(_: u8) -> Self {
+        Zst::new()
+    }
+    fn val(&self) -> u8 {
+        0
+    }
+    fn bump(&mut self, _: u8) {}
+    fn norm(_: u8) -> u8 {
+        0
+    }
+    fn drops_so_far() -> u64 {
+        ZST_COUNTS.with(|c| c.get().1)
+    }
+    fn excuse_leaks(n: u64) {
+        ZST_EXCUSED.with(|c| c.set(c.get() + n));
+    }
+}
+
+thread_local! {
+    static ZST_EXCUSED: std::cell::Cell<u64> = const { std::cell::Cell::new(0) };
+}
+
 pub trait Elem: Clone + Ord + Hash {
+    /// what a model value becomes once stored in this element type
+    fn norm(v: u8) -> u8 {
+        v
+    }
+    /// for element types without identity: drops counted so far, and a way to excuse leaks
+    fn drops_so_far() -> u64 {
+        0
+    }
+    fn excuse_leaks(_: u64) {}
     fn make(v: u8) -> Self;
     fn val(&self) -> u8;
     fn bump(&mut self, add: u8);
@@ -190,6 +253,7 @@ pub struct SvecCheck {
     pub prop: String,
     pub n: usize,        // inline capacity 1 or 2
     pub tracked: bool,   // element type with a destructor
+    pub zst: bool,       // zero-sized element type with a destructor (overrides `tracked`)
     pub ops: Vec<Op>,
 }
 
@@ -273,6 +337,16 @@ impl Op {
         })
     }
 
+    /// Map every element value (and every amount added to one) through `f`.
+    fn normalise(&mut self, f: fn(u8) -> u8) {
+        match self {
+            Op::With(_, x) | Op::Push(_, x) | Op::IndexMut(_, _, x) | Op::IterMut(_, x) => *x = f(*x),
+            Op::WithAll(_, v) | Op::FromVec(_, v) | Op::Extend(_, v) => v.iter_mut().for_each(|x| *x = f(*x)),
+            Op::RetainMut(_, _, _, add) => *add = f(*add),
+            _ => {}
+        }
+    }
+
     fn weight(&self) -> usize {
         match self {
             Op::WithAll(_, v) | Op::FromVec(_, v) | Op::Extend(_, v) => 2 + v.len(),
@@ -287,7 +361,7 @@ impl SvecCheck {
             "property": self.prop,
             "kind": "svec",
             "inline_capacity": self.n,
-            "element": if self.tracked { "drop-tracked" } else { "u32" },
+            "element": if self.zst { "zero-sized-with-destructor" } else if self.tracked { "drop-tracked" } else { "u32" },
             "ops": self.ops.iter().map(|o| o.to_json()).collect::<Vec<_>>(),
         })
     }
@@ -297,6 +371,7 @@ impl SvecCheck {
             prop: v.get("property")?.as_str()?.to_string(),
             n: v.get("inline_capacity")?.as_u64()? as usize,
             tracked: v.get("element")?.as_str()? == "drop-tracked",
+            zst: v.get("element")?.as_str()? == "zero-sized-with-destructor",
             ops: v.get("ops")?.as_array()?.iter().map(Op::from_json).collect::<Option<Vec<_>>>()?,
         })
     }
@@ -452,6 +527,7 @@ fn run<T: Elem, const N: usize>(c: &SvecCheck, v: &mut Verdict) {
                 if let (Some(a), Some(m)) = (&mut sv[*s], &mut model[*s]) {
                     let (md, r, k, as_mut) = (*md, *r, *k as usize, *as_mut);
                     let before: Vec<u32> = a.iter().filter_map(|t| t.id()).collect();
+                    let (len_before, drops_before) = (a.len() as u64, T::drops_so_far());
                     let calls = std::cell::Cell::new(0usize);
                     let did_panic = panics(AssertUnwindSafe(|| {
                         if as_mut {
@@ -492,6 +568,8 @@ fn run<T: Elem, const N: usize>(c: &SvecCheck, v: &mut Verdict) {
                                 l.excused.push(*id);
                             }
                         });
+                        // (element types without identity: by numbers)
+                        T::excuse_leaks(len_before.saturating_sub(a.len() as u64).saturating_sub(T::drops_so_far() - drops_before));
                         *m = a.iter().map(|t| t.val()).collect();
                     }
                     removed = true;
@@ -691,6 +769,30 @@ fn run<T: Elem, const N: usize>(c: &SvecCheck, v: &mut Verdict) {
 pub fn evaluate(c: &SvecCheck) -> Verdict {
     let mut v = Verdict::default();
     ledger_reset();
+    ZST_COUNTS.with(|z| z.set((0, 0, 0)));
+    ZST_EXCUSED.with(|z| z.set(0));
+    if c.zst {
+        // the model only ever sees what a stateless element can hold
+        let mut cz = c.clone();
+        for o in cz.ops.iter_mut() {
+            o.normalise(Zst::norm);
+        }
+        match c.n {
+            1 => run::<Zst, 1>(&cz, &mut v),
+            _ => run::<Zst, 2>(&cz, &mut v),
+        }
+        v.executions = 1;
+        let (created, dropped, garbage) = ZST_COUNTS.with(|z| z.get());
+        v.add("elements_created", created);
+        if v.class.is_none() {
+            if garbage > 0 || dropped > created {
+                v.fail("double-drop", 0, format!("{} zero-sized elements were created but {} were dropped", created, dropped));
+            } else if dropped + ZST_EXCUSED.with(|z| z.get()) < created {
+                v.fail("leak", 0, format!("{} of {} zero-sized elements were never dropped", created - dropped, created));
+            }
+        }
+        return v;
+    }
     match (c.tracked, c.n) {
         (true, 1) => run::<Tracked, 1>(c, &mut v),
         (true, _) => run::<Tracked, 2>(c, &mut v),
@@ -791,5 +893,15 @@ pub fn generate(rng: &mut Rng, prop: &str) -> SvecCheck {
             _ => Op::Drop(s),
         });
     }
-    SvecCheck { prop: prop.to_string(), n, tracked, ops }
+    // now and then one vector gets long: lengths around 2^7, 2^8 and 2^9 (the length of the
+    // inline representation is kept in a byte)
+    if rng.chance(1, 12) && !ops.is_empty() {
+        let at = rng.urange(0, ops.len() - 1);
+        let len = *rng.pick(&[126usize, 127, 128, 129, 254, 255, 256, 257, 258, 259, 511, 512, 513]);
+        let big: Vec<u8> = (0..len).map(|_| rng.below(4) as u8).collect();
+        let slot = rng.urange(0, SLOTS - 1);
+        ops.insert(at, if rng.coin() { Op::Extend(slot, big) } else { Op::FromVec(slot, big) });
+    }
+    let zst = rng.chance(1, 8);
+    SvecCheck { prop: prop.to_string(), n, tracked, zst, ops }
 }
